@@ -494,26 +494,29 @@ def replay(ctx, payload):
                 bad.append([t, mod, origin, seg_start])
         return {"fails": bool(bad), "listed_times_that_do_not_resolve": bad[:5]}
     if "fetch" in f:
+        # re-create the history: the manifest is requested again at the same clock and the segment is fetched
+        # through the URL *this* manifest spells out; when the manifest no longer lists that $Time$/$Number$ value
+        # (it was an artefact of the changed tree) every entry it lists for the Representation is judged instead
         import appboot
-        import hashlib
-        import mp4walk
+        import random
         import segchecks
-        import segwalk
+        fd = f["fetch"]
         app = segchecks.get_app()
-        fd = dict(f["fetch"])
-        fx = segchecks.Fetch(**fd)
-        with appboot.Clock(fd["now"]):
-            r = segwalk.get(app.client(), fd["url"])
-        fx.status = r.status_code
-        fx.tfdt = fx.seqnum = fx.total_duration = fx.payload_sha = fx.walk_error = None
-        if r.status_code == 200:
-            info = segwalk.read_segment(r.data)
-            fx.tfdt, fx.seqnum, fx.total_duration, fx.walk_error = info.tfdt, info.seqnum, info.total_duration, info.error
-            if info.boxes:
-                md = mp4walk.find(info.boxes, "mdat")
-                fx.payload_sha = hashlib.sha1(r.data[md.payload_start:md.end]).hexdigest()
+        now = datetime.datetime.fromisoformat(fd["now"].replace("Z", "+00:00"))
+        with appboot.Clock(now) as clock:
+            mpd, status, fetches = segchecks.walk_manifest(app, app.client(), clock, fd["stream"], fd["manifest"], now,
+                                                           random.Random(0), per_rep=10 ** 6, want_init=True)
         t = segchecks.tracks(app, fd["stream"]).get(fd["rep_id"])
-        again = oracle_fetch(t, fx) if (t is not None and r.status_code == 200) else None
-        return {"fails": bool(again), "status": r.status_code, "tfdt": fx.tfdt, "seqnum": fx.seqnum,
-                "total_duration": fx.total_duration, "oracle": again and again.get("what")}
+        mine = [x for x in fetches if x.rep_id == fd["rep_id"] and x.mode == fd["mode"]]
+        same = [x for x in mine if x.value == fd["value"]]
+        ledger = [g for g in common.load_ledger() if g.get("property") == "C02" and g.get("status") == "open"]
+        bad = []
+        for x in (same or mine):
+            if x.status != 200 or t is None:
+                continue
+            again = oracle_fetch(t, x)
+            if again and not any(matches_finding(g, again) for g in ledger):
+                bad.append({"value": x.value, "what": again.get("what")})
+        return {"fails": bool(bad), "manifest_status": status, "value_still_listed": bool(same),
+                "judged": len(same or mine), "failures": bad[:5]}
     return {"fails": False, "note": "replay names a broken obligation", "payload": payload.get("broken")}
